@@ -167,6 +167,19 @@ where
             OperationType::DeferredDumpBlobIndexes => {
                 self.defer_blob_indexes_dump().await?;
             },
+            #[cfg(pearl_verif)]
+            OperationType::VerifQuiesce => {
+                complete_task(&mut self.index_dump_task, "index_dump_task").await;
+                complete_task(&mut self.fsync_task, "fsync_task").await;
+                if self.deferred_index_dump_info.take().is_some() {
+                    self.next_deadline = None;
+                    self.try_run_old_blob_indexes_dump_task().await;
+                    complete_task(&mut self.index_dump_task, "index_dump_task").await;
+                }
+                if let Some(reply) = msg.verif_reply {
+                    let _ = reply.send(());
+                }
+            },
         }
         Ok(())
     }
